@@ -259,6 +259,9 @@ def _generate_mask(vertices, x, y):
 
     """
     vertices = truenp.asarray(vertices)
+    # the centroid of a convex polygon is interior, so adding it does not change
+    # the filled region; it gives Qhull the d+2 points it needs for a triangle
+    vertices = truenp.vstack((vertices, vertices.mean(axis=0)))
     if hasattr(x, 'get'):
         xx = x.get()
         yy = y.get()
